@@ -595,7 +595,7 @@ def validate_calls(report, batches, tag):
     with open(path, "w") as f:
         json.dump({"cfgs": cfgs, "batches": slim}, f)
     cfg = write_cfg("calls_%s.cfg" % tag, CALLS_CFG, [], [])
-    r = run_tlc("Trace_LogCalls", cfg, env={"TRACE_FILE": path}, workers=16, tag=tag)
+    r = run_tlc("Trace_LogCalls", cfg, env={"TRACE_FILE": path}, workers=16, tag=tag, timeout=3000)
     os.unlink(path)
     n = sum(len(b["calls"]) for b in batches)
     report.cov["states"] += r.distinct
